@@ -79,6 +79,10 @@ func boolExprValue(e string, asg map[string]string) (bool, bool, []string) {
 		v, k, u := boolExprValue(e[1:], asg)
 		return !v, k, u
 	}
+	if strings.HasSuffix(e, " == nil") {
+		v, k, u := boolExprValue(strings.TrimSuffix(e, " == nil")+" != nil", asg)
+		return !v, k, u
+	}
 	if i := strings.Index(e, " != "); i > 0 && !strings.HasSuffix(e, " != nil") {
 		v, k, u := boolExprValue(e[:i]+" == "+e[i+4:], asg)
 		return !v, k, u
